@@ -115,11 +115,70 @@ def gen_meta_session(rng, np_=None, redefs=None, with_data=True):
             meta_point(sess, ms)
     read_all(sess, rng)
     sess.emit('* close %d' % f)
+    if with_data and rng.chance(1, 3):
+        # last phase (the API-level model stops predicting at the first data-mode attribute update)
+        sess.emit('* open %d 1' % f)
+        read_all(sess, rng)
+        meta_point(sess, ms, noframe=True)
+        datamode_atts(sess, rng, schema, ms)
+        read_all(sess, rng)
+        sess.emit('* close %d' % f)
+        return sess
     sess.emit('* open %d 0' % f)
     read_all(sess, rng)
     meta_point(sess, ms, noframe=True)
     sess.emit('* close %d' % f)
     return sess
+
+
+def padded(t, n):
+    return (n * (1 if t == 2 else ELSIZE[t]) + 3) // 4 * 4
+
+
+def datamode_atts(sess, rng, schema, ms):
+    """attribute updates in DATA mode: an existing attribute may be overwritten when its encoded (padded)
+    size does not grow - the header is rewritten in place; anything that would grow the header must be
+    refused with NC_ENOTINDEFINE and leave file and header alone (there may be no free space behind the
+    header).  (The API-level Coq model leaves data-mode attribute updates to the metadata model of C07: the
+    rest of such a session is judged by the oracles on the implementation's own observations.)"""
+    f = sess.f
+    cands = [(-1, ms.gatts)] + [(i, v['atts']) for i, v in enumerate(ms.vars)]
+    cands = [(vid, l) for vid, l in cands if l]
+    if not cands:
+        return
+    for _ in range(rng.range(1, 4)):
+        vid, lst = rng.choice(cands)
+        name, t, vals = rng.choice(lst)
+        n = len(vals)
+        kind = rng.choice(['same', 'fewer', 'wider', 'wider_fewer', 'more', 'narrower'])
+        types = [x for x in schema.types if x != 2] if t != 2 else [2]
+        nt, nn = t, n
+        if kind == 'fewer':
+            nn = max(n - 1 - rng.below(2), 0)
+        elif kind in ('wider', 'wider_fewer') and t != 2:
+            wid = [x for x in types if ELSIZE[x] > ELSIZE[t]]
+            if not wid:
+                continue
+            nt = rng.choice(wid)
+            nn = n if kind == 'wider' else max(n - 1, 1)
+        elif kind == 'more':
+            nn = n + rng.choice([1, 1, 2, 5])
+        elif kind == 'narrower' and t != 2:
+            nar = [x for x in types if ELSIZE[x] < ELSIZE[t]]
+            if not nar:
+                continue
+            nt = rng.choice(nar)
+        if nt == 2:
+            nv = [rng.range(32, 126) for _ in range(nn)]
+        else:
+            lo, hi = ATT_RANGE[nt]
+            nv = [rng.range(lo, hi) for _ in range(nn)]
+        ok = padded(nt, nn) <= padded(t, n)
+        sess.emit('* put_att %d %d %s %d %d %s' % (f, vid, hx(name), nt, nn, fmt_list(nv)), kind='datamode_att',
+                  expect_rc=0 if ok else -38, what='%s: type %d x %d over type %d x %d' % (kind, nt, nn, t, n))
+        if ok:
+            ms.set_att(lst, (name, nt, nv))
+        meta_point(sess, ms, noframe=True)
 
 
 def decode_file(model_exe, hexbytes, workdir, tag):
@@ -128,6 +187,21 @@ def decode_file(model_exe, hexbytes, workdir, tag):
     out = subprocess.run([model_exe, '--decode', p], stdout=subprocess.PIPE, stderr=subprocess.STDOUT, timeout=120).stdout.decode()
     os.remove(p)
     return out.strip().split('\n')
+
+
+def judge_datamode_atts(sess, res):
+    fails = []
+    for ln in range(1, len(sess.lines) + 1):
+        a = sess.ann.get(ln)
+        if not a or a.get('kind') != 'datamode_att':
+            continue
+        for r in range(sess.np):
+            o = res.impl.get((ln, r))
+            if o is not None and len(o) > 1 and int(o[1]) != a['expect_rc']:
+                fails.append(dict(kind='datamode-att:' + ('accepted-growth' if a['expect_rc'] else 'refused'), line=ln, rank=r,
+                                  detail='put_att in data mode (%s) returned %s, expected %d' % (a['what'], o[1], a['expect_rc'])))
+                break
+    return fails
 
 
 def judge_meta(sess, res, model_exe, workdir):
